@@ -848,13 +848,11 @@ def fvGo (fuel nested loc : Nat) (st : FVState) (pos : Nat) (cs : List Nat) : FR
       else if ch = 33 && st.delims.isEmpty then
         if st.expr.all (· = 32) then .error (.fstring .emptyExpression, pos + 1)
         else
-          match rest with
-          | [] => .error (.fstring .unclosedLbrace, pos + 1)
-          | f :: rest' =>
-            if f = 115 || f = 97 || f = 114 then
-              if headIs (fun c => c = 125 || c = 58) rest' then fvGo fuel nested loc st (pos + 2) rest'
-              else .error (.fstring .unclosedLbrace, pos + 2)
-            else .error (.fstring .invalidConversionFlag, pos + 2)
+          if rest.isEmpty then .error (.fstring .unclosedLbrace, pos + 1)
+          else if headIs (fun f => f = 115 || f = 97 || f = 114) rest then
+            if headIs (fun c => c = 125 || c = 58) rest.tail then fvGo fuel nested loc st (pos + 2) rest.tail
+            else .error (.fstring .unclosedLbrace, pos + 2)
+          else .error (.fstring .invalidConversionFlag, pos + 2)
       else if ch = 61 && st.delims.isEmpty then
         fvGo fuel nested loc { st with selfDoc := true } (pos + 1) rest
       else if ch = 58 && st.delims.isEmpty then
